@@ -710,7 +710,8 @@ class SchemaRejectsBounded:
 # parser / classifier of C09 (trusted inside validate_references above): the same contracts are part of this check
 from pyvc.spec import shared as _shared
 import contracts.C09 as _c09
-REFERENCE_PARSING = [_shared(_c09.ParsePrint(), 'C11'), _shared(_c09.Classify(), 'C11'), _shared(_c09.NonComponentForms(), 'C11')]
+REFERENCE_PARSING = [_shared(_c09.ParsePrint(), 'C11'), _shared(_c09.Classify(), 'C11'), _shared(_c09.NonComponentForms(), 'C11'),
+                     _shared(_c09.ExpandList(), 'C11')]        # _initialize expands every component's references before validating
 
 TARGETS = REFERENCE_PARSING + [ValidateReferences(), DuplicateIdentifiers(), TryReportErrors(), InitializeFunnel(), CycleCheck(),
            PropagateReplicateCycles(), ConcreteValidate(), ValidateComponent(), ValidateDocument()]
